@@ -1488,16 +1488,35 @@ func main() {
 		Name: "c19life", Import: "IV.Check.C19bCheck", CaseType: "list Z * list levent * list (list (option (list fupd)))",
 		Checks: []string{"life_mismatches", "life_spec_failures"},
 	}
+	concSet := &cq.Set{
+		Name: "c19conc", Import: "IV.Check.C19cCheck", CaseType: "cconc",
+		Checks: []string{"conc_mismatches", "conc_spec_failures"},
+	}
 	rule := "c19rec: one recorder, random interleavings of in/out RTP (wrap, dup, reorder, loss, foreign SSRC) and in/out RTCP compounds " +
 		"(SR/RR/XR(DLRR,RRTR,other)/NACK/PLI/FIR/SDES/BYE/REMB to matching and foreign SSRCs), stats read after every event; " +
 		"c19icp: public interceptor with 1-4 bound streams, every bound SSRC read after every event; non-trivial = at least 2 events; " +
 		"c19life: public interceptor with the package's recorder behind a gated RecorderFactory: Bind/Unbind/rebind/Close and the Start goroutine " +
 		"of every recorder interleaved with RTP (also through stale handles) and RTCP, Get of 3 streams and a never-bound SSRC after every event; " +
-		"non-trivial = at least 2 traffic events"
+		"non-trivial = at least 2 traffic events; " +
+		"c19conc: one recorder (hook, or behind the public interceptor with the stream bound both ways) whose Queue* entry points are called " +
+		"from 2-5 goroutines at once (each 250-5000 calls: RTP sent / received, incoming / outgoing compounds of 6-24 packets, mixed scripts; the " +
+		"same entry point from two goroutines), a further goroutine reading the statistics meanwhile; the read after the join must equal the " +
+		"recount of everything queued and no read may show a smaller counter than an earlier one; non-trivial = at least 2 goroutines that queue"
 
 	if o.Replay != "" {
 		var raw map[string]interface{}
 		set := cq.LoadReplay(o.Replay, &raw)
+		if set == "c19conc" {
+			// a concurrent script has no fixed schedule: the replay runs it several times, every run is a case
+			var cc concCase
+			cq.LoadReplay(o.Replay, &cc)
+			for k := 0; k < 8; k++ {
+				concSet.Cases = append(concSet.Cases, runConc(cc).toCase([]string{"replay"}))
+			}
+			cq.Write(o, "replay", []*cq.Set{concSet}, nil, nil)
+
+			return
+		}
 		if set == "c19life" {
 			var lc lifeCase
 			cq.LoadReplay(o.Replay, &lc)
@@ -1529,7 +1548,15 @@ func main() {
 	// regression corpus first
 	for _, f := range o.CorpusFiles() {
 		var c recCase
-		if cq.LoadReplay(f, &c) == "c19life" {
+		set := cq.LoadReplay(f, &c)
+		if set == "c19conc" {
+			var cc concCase
+			cq.LoadReplay(f, &cc)
+			concSet.Cases = append(concSet.Cases, runConc(cc).toCase([]string{"corpus"}))
+
+			continue
+		}
+		if set == "c19life" {
 			var lc lifeCase
 			cq.LoadReplay(f, &lc)
 			lc.Obs = nil
@@ -1588,11 +1615,21 @@ func main() {
 		lc, buckets := genLife(r)
 		lifeSet.Cases = append(lifeSet.Cases, runLife(lc).toCase(buckets))
 	}
+	nconc := o.Scale(36, 360)
+	concCalls := 0
+	for i := 0; i < nconc; i++ {
+		cc, buckets := genConc(r, i)
+		concCalls += cc.calls()
+		concSet.Cases = append(concSet.Cases, runConc(cc).toCase(buckets))
+	}
 	if len(leak) > 3 {
 		leak = leak[:3]
 	}
-	cq.Write(o, rule, []*cq.Set{recSet, icpSet, lifeSet},
-		map[string]interface{}{"interceptor_histories": nicp, "lifecycle_histories": nlife}, leak)
+	cq.Write(o, rule, []*cq.Set{recSet, icpSet, lifeSet, concSet},
+		map[string]interface{}{
+			"interceptor_histories": nicp, "lifecycle_histories": nlife,
+			"concurrent_runs": nconc, "concurrent_calls": concCalls,
+		}, leak)
 	if len(recSet.Cases) == 0 {
 		fmt.Fprintln(os.Stderr, "no cases")
 		os.Exit(1)
